@@ -211,6 +211,9 @@ class Histories(BoundedCheck):
                 raised = ex
             after = snapshot(c)
             here = dict(jcase, step=step)
+            if raised is not None and op[0] == 'values' and op[1] in ('scalar', 'array-ok') and isinstance(raised, AttributeError):
+                out.append(Violation('with strict=True updates of existing names keep working (values replacement is not a new attribute)', 'c09.values-blocked-under-strict', here,
+                                     'replaced', f'{type(raised).__name__}: {raised}'[:90]))
             if raised is not None and op[0] == 'strict':
                 out.append(Violation('the strict switch itself can always be set (with strict=True updates of existing names keep working)', 'c09.strict-switch-blocked', here,
                                      'accepted', f'{type(raised).__name__}: {raised}'[:80]))
